@@ -673,3 +673,64 @@ func zzConcInt3(x int) int {
 	}
 	return 0
 }
+
+// ZZ_C04_canaryPodsPinnedInEveryTerm: "pods built from the new template are created only on the nodes
+// listed in status.canary.nodes" in the node-affinity binding mode, where "on a node" is only as strong as
+// the affinity the pod carries: the new template has no node affinity, one required term, or two ORed
+// required terms (pool a or pool b).  The pod the canary replica set creates for canary node0 can be
+// scheduled on node0 only: every one of its required terms names node0 (terms are alternatives).
+func ZZ_C04_canaryPodsPinnedInEveryTerm() {
+	c, ds, rsNew, rsOld := zzStore(3)
+	ds.Spec.Strategy.Canary = &datadoghqv1alpha1.ExtendedDaemonSetSpecStrategyCanary{}
+	datadoghqv1alpha1.DefaultExtendedDaemonSetSpec(&ds.Spec, datadoghqv1alpha1.ExtendedDaemonSetSpecStrategyCanaryValidationModeAuto)
+	ds.Status.ActiveReplicaSet = rsOld.Name
+	ds.Status.Canary = &datadoghqv1alpha1.ExtendedDaemonSetStatusCanary{ReplicaSet: rsNew.Name, Nodes: []string{zzNodeName(0)}}
+	c.Nodes[0].Labels = map[string]string{"pool": "a"}
+	c.Nodes[1].Labels = map[string]string{"pool": "b"}
+	c.Nodes[2].Labels = map[string]string{"pool": "b"}
+	term := func(v string) corev1.NodeSelectorTerm {
+		return corev1.NodeSelectorTerm{MatchExpressions: []corev1.NodeSelectorRequirement{{Key: "pool", Operator: corev1.NodeSelectorOpIn, Values: []string{v}}}}
+	}
+	var terms []corev1.NodeSelectorTerm
+	switch nondet.String("template.requiredTerms", "none", "one", "two") {
+	case "one":
+		terms = []corev1.NodeSelectorTerm{term("a")}
+	case "two":
+		terms = []corev1.NodeSelectorTerm{term("a"), term("b")}
+	}
+	if terms != nil {
+		rsNew.Spec.Template.Spec.Affinity = &corev1.Affinity{NodeAffinity: &corev1.NodeAffinity{RequiredDuringSchedulingIgnoredDuringExecution: &corev1.NodeSelector{NodeSelectorTerms: terms}}}
+	}
+	c.Pods = append(c.Pods,
+		zzPod("active-1", zzNodeName(1), rsOld.Name, zzHashOld, 0, corev1.PodRunning, true, nondet.Base().Add(-3600*1e9)),
+		zzPod("active-2", zzNodeName(2), rsOld.Name, zzHashOld, 0, corev1.PodRunning, true, nondet.Base().Add(-3600*1e9)))
+	_, err := zzReconcile(zzReconciler(c, true), zzNS, rsNew.Name)
+	nondet.Assert("C04.pinned.noerror", err == nil)
+	created := 0
+	for _, e := range c.Log {
+		if e.Kind != "Pod" || e.Verb != "create" {
+			continue
+		}
+		created++
+		p := e.Obj.(*corev1.Pod)
+		req := (*corev1.NodeSelector)(nil)
+		if p.Spec.Affinity != nil && p.Spec.Affinity.NodeAffinity != nil {
+			req = p.Spec.Affinity.NodeAffinity.RequiredDuringSchedulingIgnoredDuringExecution
+		}
+		nondet.Assert("C04.pinned.has-required-terms", req != nil && len(req.NodeSelectorTerms) > 0)
+		if req == nil {
+			continue
+		}
+		for _, t := range req.NodeSelectorTerms {
+			named := false
+			for _, f := range t.MatchFields {
+				if f.Key == "metadata.name" && f.Operator == corev1.NodeSelectorOpIn && len(f.Values) == 1 && f.Values[0] == zzNodeName(0) {
+					named = true
+				}
+			}
+			nondet.Assert("C04.pinned.every-term-names-the-canary-node", named)
+		}
+	}
+	nondet.Assert("C04.pinned.one-canary-pod", created == 1)
+	nondet.Reach("C04.pinned.two-terms", len(terms) == 2 && created == 1)
+}
